@@ -61,6 +61,13 @@ Theorem C03_restore_ok_sound : forall R t s,
     exists k, In k (mem_packs R t) /\ In h (pk_blobs k) /\ copy_ok (pst (t_packs t) (pk_id k)) h = true.
 Proof. exact restore_ok_sound. Qed.
 
+(* A mounted-file read that succeeds had a readable, unchanged copy of every blob it spans. *)
+Theorem C03_read_ok_sound : forall R t bs,
+  read_ok R t bs = true ->
+  t_open_bad t = false /\
+  forall h, In h bs -> exists k, In k (mem_packs R t) /\ In h (pk_blobs k) /\ copy_ok (pst (t_packs t) (pk_id k)) h = true.
+Proof. exact read_ok_sound. Qed.
+
 Theorem C03_oracle_sound : forall c, check_C03 c = true <-> C03_holds c.
 Proof. exact check_C03_iff. Qed.
 
@@ -74,5 +81,6 @@ Print Assumptions C03_load_blob_verified.
 Print Assumptions C03_no_wrong_plaintext.
 Print Assumptions C03_intact_duplicate_used.
 Print Assumptions C03_restore_ok_sound.
+Print Assumptions C03_read_ok_sound.
 Print Assumptions C03_oracle_sound.
 Print Assumptions C03_model_satisfies_oracle.
